@@ -557,11 +557,15 @@ parse_file(const char *file)
 
 #if defined HAVE_GETLINE
 	for (ssize_t nrd; (nrd = getline(&line, &llen, fp)) > 0;) {
-		parse_line(line, nrd - 1);
+		/* the last line may come without a newline */
+		nrd -= line[nrd - 1] == '\n';
+		parse_line(line, nrd);
 	}
 #elif defined HAVE_FGETLN
 	while ((line = fgetln(fp, &llen)) != NULL && llen > 0U) {
-		parse_line(line, llen - 1);
+		/* the last line may come without a newline */
+		llen -= line[llen - 1] == '\n';
+		parse_line(line, llen);
 	}
 #else
 # error neither getline() nor fgetln() available, cannot read file line by line
@@ -654,11 +658,13 @@ check_file(const char *file)
 
 #if defined HAVE_GETLINE
 	for (ssize_t nrd; (nrd = getline(&line, &llen, fp)) > 0;) {
-		rc |= check_line(line, nrd - 1);
+		nrd -= line[nrd - 1] == '\n';
+		rc |= check_line(line, nrd);
 	}
 #elif defined HAVE_FGETLN
 	while ((line = fgetln(fp, &llen)) != NULL && llen > 0U) {
-		rc |= check_line(line, llen - 1);
+		llen -= line[llen - 1] == '\n';
+		rc |= check_line(line, llen);
 	}
 #else
 # error neither getline() nor fgetln() available, cannot read file line by line
